@@ -437,6 +437,17 @@ class G:
                 continue
             if n['id'] not in has_child or self.chance(0.15):
                 self.add_sink(n['id'], mode)
+        if mode == 'async':
+            # an entry that is only ever joined into the pipeline may be a plain Stream(): it inherits loop and
+            # mode from the pipeline it extends (C19) and must then behave like every other entry
+            joins = ('union', 'zip', 'combine_latest', 'zip_latest')
+            srcs = [n for n in self.graph if n['op'] == 'source']
+            for sn in srcs[1:]:
+                kids = [n for n in self.graph if sn['id'] in n.get('up', [])]
+                if kids and all(k['op'] in joins for k in kids) and \
+                        all(any(u != sn['id'] and not (self.graph[u]['op'] == 'source' and self.graph[u].get('unbound')) for u in k['up'])
+                            for k in kids) and self.chance(0.5):
+                    sn['unbound'] = True
         # producers
         entries = [n['id'] for n in self.graph if n['op'] == 'source']
         producers = []
